@@ -61,6 +61,26 @@ def gen(ctx):
         out.append(big_dag(rng, 65535, bits=0))
         out.append(big_dag(rng, 65536, bits=0))
         out.append(big_dag(rng, 70000, bits=3))
+    # a subtree together with the pruned branch that stands for it (and a cell above each of them): the two share their
+    # level-0 hash but are different cells; both must be written, and the bag must come back as the same tree
+    for _ in range(ctx.n(25, 250)):
+        sub = cells.rand_ordinary_dag(rng, rng.choice([1, 2, 4]), max_bits=40)
+        info = cells.ref_hd(sub)[-1]
+        t = len(sub) - 1
+        d = list(sub)
+        d.append(cells.pruned_node(1, [info[1][0]], [info[2][0]]))          # index t + 1
+        wrap = cells.rand_bits(rng, rng.choice([0, 5, 8]))
+        d.append((-1, wrap, [t]))                                            # above the full subtree
+        d.append((-1, wrap, [t + 1]))                                        # the same cell above the pruned branch
+        kind = rng.choice(["pair", "above", "update"])
+        if kind == "pair":
+            d.append((-1, "1", [t, t + 1]))
+        elif kind == "above":
+            d.append((-1, "11", [t + 2, t + 3]))
+        else:
+            hd = cells.ref_hd(d)
+            d.append(cells.mupdate_node(hd[t + 2][1][0], hd[t + 3][1][0], hd[t + 2][2][0], hd[t + 3][2][0], t + 2, t + 3))
+        out.append(d)
     # payload sizes forced across 255/256 bytes
     for nbits in (1000, 1008, 1016):
         out.append([(-1, cells.rand_bits(rng, nbits), []), (-1, cells.rand_bits(rng, 1016 - 16), [0])])
